@@ -838,3 +838,109 @@ func streamDiatonic() {
 		}
 	}
 }
+
+// ---------- wconv: crd write conv -c cmt, and its output fed back into crd write ----------
+
+func init() { streams["wconv"] = streamWconv }
+
+func eventLines(out []byte) string {
+	var keep []string
+	for _, l := range strings.Split(string(out), "\n") {
+		if strings.Contains(l, "MetaText") || l == "" {
+			continue
+		}
+		keep = append(keep, l)
+	}
+	return strings.Join(keep, "\n")
+}
+
+func streamWconv() {
+	s, done := openStream("wconv")
+	defer done()
+	r := rng("wconv")
+	var cases []writeCase
+	var cmds [][]string
+	for i := 0; i < pick(800, 12000); i++ {
+		c := genWriteCase(r)
+		if c.flags.track > 64 {
+			c.flags.track = 1
+		}
+		cases = append(cases, c)
+		switch r.Intn(12) {
+		case 0:
+			cmds = append(cmds, []string{"xyz"})
+		case 1:
+			cmds = append(cmds, []string{"cmt", "cmt"})
+		case 2:
+			cmds = append(cmds, nil)
+		default:
+			cmds = append(cmds, []string{"cmt"})
+		}
+	}
+	type res struct {
+		reply  string
+		oracle string
+	}
+	out := make([]res, len(cases))
+	parallel(len(cases), func(i int) {
+		c := cases[i]
+		args := []string{"write", "conv"}
+		for _, x := range cmds[i] {
+			args = append(args, "-c", x)
+		}
+		args = append(args, c.flags.args()...)
+		doc := []byte(yamlDoc(c.is))
+		rr := runCrd(doc, 20*time.Second, args...)
+		switch rr.class() {
+		case "crash":
+			out[i].reply = "crash"
+			return
+		case "err":
+			out[i].reply = "err"
+			if len(rr.stdout) != 0 {
+				out[i].reply = "err-with-stdout"
+			}
+			return
+		}
+		is, err := rawFromYAML(rr.stdout)
+		if err != nil {
+			out[i].reply = "bad-yaml " + err.Error()
+			return
+		}
+		var items []string
+		for _, x := range is {
+			items = append(items, x.proto())
+		}
+		out[i].reply = "ok " + pList(items)
+		// property oracle on the real code: the converted document plays exactly like the original (the flags were
+		// already folded into the converted document, so the second write runs without them except the track layout)
+		extra := writeFlags{track: c.flags.track, instrument: c.flags.instrument, program: c.flags.program}.args()
+		direct := runCrd(doc, 20*time.Second, append(append([]string{"write", "event"}, c.flags.args()...))...)
+		via := runCrd(rr.stdout, 20*time.Second, append([]string{"write", "event"}, extra...)...)
+		if direct.class() != via.class() || eventLines(direct.stdout) != eventLines(via.stdout) {
+			out[i].oracle = fmt.Sprintf("direct: %s %q | via write conv: %s %q", direct.class(), trunc([]byte(eventLines(direct.stdout))), via.class(), trunc([]byte(eventLines(via.stdout))))
+		}
+	})
+	for i, c := range cases {
+		var cs []string
+		for _, x := range cmds[i] {
+			cs = append(cs, hx(x))
+		}
+		req := c.req("wconv")
+		// splice the command list before the instance list: wconv flags attrs chords cmds instances
+		var as, chs, is []string
+		for _, a := range c.attrs {
+			as = append(as, hx(a.name)+" "+pOptHx(a.degree))
+		}
+		_ = chs
+		for _, x := range c.is {
+			is = append(is, x.proto())
+		}
+		req = strings.Join([]string{"wconv", c.flags.proto(), pList(as), pList(nil), pList(cs), pList(is)}, " ")
+		s.add(req, out[i].reply)
+		s.stat("class-" + strings.SplitN(out[i].reply, " ", 2)[0])
+		if out[i].oracle != "" {
+			s.violate("C10", "`crd write conv | crd write` does not play like `crd write` on the original document", req, out[i].oracle)
+		}
+	}
+}
